@@ -193,6 +193,8 @@ def _gen_frames(rng, tier="quick"):
             if ufr and msg["orient"] and "cart" not in msg and msg["frame"] in _INERTIAL and rng.random() < 0.5:
                 msg["parent"] = rng.choice(ufr)
                 msg["deps"] = list(msg.get("deps", [])) + [msg["parent"]]
+            if msg["src"] in ("static", "ephem") and "cart" not in msg and msg["frame"] in _INERTIAL and rng.random() < 0.3:
+                msg["ref_form"] = rng.choice(["keplerian", "spherical", "keplerian_mean"])
             if msg["orient"] and rng.random() < 0.15:
                 msg["orient"] = rng.choice([msg["orient"].lower(), msg["orient"].capitalize()])  # the name of the local orbital frame in another case ("qsw", "Tnw")
             # an orbit derived from one that already gave its name to a frame (a copy of it, moved): a frame of its own under a new name
@@ -541,9 +543,15 @@ def _ref_object(node, msg, kn, refs=None, lookup=None):
     orb = node.Orbit(msg["kep"], date, "keplerian", msg["frame"], Kepler())
     if msg["src"] == "ephem":
         td = node.timedelta
-        return orb.ephem(start=date - td(minutes=30), stop=td(minutes=60), step=td(minutes=3))
+        eph = orb.ephem(start=date - td(minutes=30), stop=td(minutes=60), step=td(minutes=3))
+        if msg.get("ref_form"):
+            eph.form = msg["ref_form"]  # an ephemeris held in another form than cartesian
+        return eph
     if msg["src"] == "static":
-        return orb.copy(form="cartesian").as_statevector()
+        sv = orb.copy(form="cartesian").as_statevector()
+        if msg.get("ref_form"):
+            sv.form = msg["ref_form"]  # the reference state is held in keplerian / spherical form
+        return sv
     return orb
 
 
